@@ -40,6 +40,8 @@ type DefaultMetricLogWriter struct {
 
 	timezoneOffsetSec int64
 	latestOpSec       int64
+	// lastIdxSec is the second of the latest entry in the index of the current file (-1: none yet).
+	lastIdxSec int64
 
 	curMetricFile    *os.File
 	curMetricIdxFile *os.File
@@ -73,7 +75,17 @@ func (d *DefaultMetricLogWriter) Write(ts uint64, items []*base.MetricItem) erro
 		// ignore
 		return nil
 	}
-	if timeSec > d.latestOpSec {
+	if timeSec > d.latestOpSec && d.isNewDay(d.latestOpSec, timeSec) {
+		// Roll before the index entry is written, so that the entry lands in the index of the
+		// file that holds the items.
+		if err := d.rollToNextFile(ts); err != nil {
+			return errors.Wrap(err, "failed to roll the metric log")
+		}
+	}
+	if timeSec != d.lastIdxSec {
+		// The first batch of a second in the current file gets an index entry. This includes the
+		// second in which the writer was created and the first batch after a roll: items that no
+		// index entry leads to can never be found by the searcher.
 		pos, err := util.FilePosition(d.curMetricFile)
 		if err != nil {
 			return errors.Wrap(err, "cannot get current pos of the metric file")
@@ -81,11 +93,7 @@ func (d *DefaultMetricLogWriter) Write(ts uint64, items []*base.MetricItem) erro
 		if err = d.writeIndex(timeSec, pos); err != nil {
 			return errors.Wrap(err, "cannot write metric idx file")
 		}
-		if d.isNewDay(d.latestOpSec, timeSec) {
-			if err = d.rollToNextFile(ts); err != nil {
-				return errors.Wrap(err, "failed to roll the metric log")
-			}
-		}
+		d.lastIdxSec = timeSec
 	}
 	// Write and flush
 	if err := d.writeItemsAndFlush(items); err != nil {
@@ -258,6 +266,7 @@ func (d *DefaultMetricLogWriter) closeCurAndNewFile(filename string) error {
 
 	d.curMetricIdxFile = mif
 	d.idxOut = bufio.NewWriter(mif)
+	d.lastIdxSec = -1
 
 	return nil
 }
